@@ -22,7 +22,11 @@ with fplan :=
 | FP (tag : option N)        (* Some t: the resolver returns a ResolvePromise (t is a static label the
                                 scheduler may look at); None: it answers synchronously *)
      (nn : bool)             (* the field's type is non-null *)
-     (res : option vplan).   (* None: resolver error / promise fulfilled with an error *)
+     (res : option vplan).   (* None: resolver error / promise fulfilled with an error, where "error" is
+                                what the executor's isNil says it is: an error value that is not nil and
+                                not a nil pointer inside the interface.  A value accompanied by a
+                                typed-nil error is [Some v] on both delivery routes (the harness
+                                delivers such outcomes; abstraction = isNil) *)
 
 Definition selset := list (bytes * fplan).
 
